@@ -219,7 +219,8 @@ def run_case(case, acc):
     steps = [(make_desc(rnd, kind, s["force"], case["mix"]), s["mode"]) for s in case["steps"]]
     sig = {"family": kind, "ct": case["ct"], "data": c07.signature(desc), "steps": [(m, c07.signature(d)) for d, m in steps]}
     j = c07.Judge(acc, case, "%s %s via %s, %s, steps %s" % (kind, case["ct"], case["entry"], json.dumps(sig["data"]), [m for _, m in steps]))
-    res, ok = guarded(j, lambda: c07.new_chart(case["entry"], case["ct"], c07.build_data(desc)), case["entry"])
+    cd = c07.build_data(desc)
+    res, ok = guarded(j, lambda: c07.new_chart(case["entry"], case["ct"], cd), case["entry"])
     acc.count("charts_built")
     cxs = []
     if ok:
@@ -236,7 +237,8 @@ def run_case(case, acc):
                 prs = pptx.Presentation(io.BytesIO(data))
                 chart = next(ch for ch in c07.iter_charts(prs) if str(ch.part.partname) == partname)
             branch = "replace-blob" if has_ext(chart) else "new-part"
-            _, ok = guarded(j, lambda: chart.replace_data(c07.build_data(nd)), "replace_data")
+            cd = c07.build_data(nd)
+            _, ok = guarded(j, lambda: chart.replace_data(cd), "replace_data")
             acc.count("replaces")
             if not ok:
                 break
@@ -278,7 +280,8 @@ def run_corpus(case, acc):
         nd = c07.gen_data(rnd, kind, rnd.choice(["few", "random", "unequal", "multi3"]), min_series=1, mix=CLEAN, dates=c07.DATES, force=dict(force, nf="0.0", cat_nf=False))
         j = c07.Judge(acc, dict(case, chart=n), "%s %s (%s), replace with %s" % (case["deck"], chart.part.partname, case["mode"], json.dumps(c07.signature(nd))))
         branch = "replace-blob" if has_ext(chart) else "new-part"
-        _, ok = guarded(j, lambda: chart.replace_data(c07.build_data(nd)), "replace_data")
+        cd = c07.build_data(nd)
+        _, ok = guarded(j, lambda: chart.replace_data(cd), "replace_data")
         acc.count("replaces")
         if ok:
             acc.hit("replace_data")
@@ -389,8 +392,6 @@ def replay(w, acc):
         w = {k: v for k, v in w.items() if k != "chart"}
         (run_corpus if "deck" in w else run_case)(w, acc)
     print("replayed %s" % json.dumps(w)[:300])
-    for v in acc.violations:
-        print("  [%s] %s" % (v["key"], v["what"][:300]))
 
 
 def finalize(acc, tier, seed):
